@@ -155,7 +155,9 @@ class Impl:
             step.delete_hash()
             step.set_state(StepState.PENDING)
         elif name == "validate_pending":
-            self.node(("step", op[1])).set_state(StepState.PENDING, True)
+            # Executor.validate_dynamic_job (84081f2): the flag is decided in this transaction
+            step = self.node(("step", op[1]))
+            step.set_state(StepState.PENDING, step.has_unusable_dynamic_input())
         elif name == "mark_step_pending":
             wf.mark_step_pending(self.node(("step", op[1])))
         elif name == "delete_detached":
@@ -857,7 +859,7 @@ class Gen:
         r0 = rng.random()
         if self.startup and r0 < 0.35:
             await self.scenario_sloppy()
-        elif self.startup and r0 < 0.7:
+        elif self.startup and r0 < 0.8:
             await self.scenario_optional()
         elif r0 < 0.4:
             await self.scenario()
@@ -1161,7 +1163,7 @@ class Gen:
         if not await self.run_to_running(plan):
             return
         a, b = rng.sample(STEPS, 2)
-        vol = ("f5",) if rng.random() < 0.4 else ()
+        vol = ("f5",) if rng.random() < 0.75 else ()       # a volatile output must stay VOLATILE
         spec_a = ((), (), ("f1",) if rng.random() < 0.6 else ("f1", "f2"), vol, "OPTIONAL")
         spec_b = (("f1",), (), ("f3",), (), "DEFAULT")
         for lab, spec in ((a, spec_a), (b, spec_b)):
